@@ -368,6 +368,9 @@ namespace vh { inline int run_entry(int (*f)(int, char **), int argc, char **arg
     // VH_FPROUND=upward|downward|towardzero: the application has chosen another floating-point rounding direction (threads
     // created afterwards inherit it). The unchanged library is insensitive to it; so must be what the properties state.
     if (const char *fr = getenv("VH_FPROUND")) { std::string m = fr; fesetround(m == "upward" ? FE_UPWARD : m == "downward" ? FE_DOWNWARD : m == "towardzero" ? FE_TOWARDZERO : FE_TONEAREST); }
+    // VH_FPFLAGS: unrelated earlier code of the application left the sticky floating-point exception flags raised (invalid,
+    // divide-by-zero, overflow, underflow, inexact); threads created afterwards inherit them
+    if (getenv("VH_FPFLAGS")) feraiseexcept(FE_ALL_EXCEPT);
     if (!getenv("VH_ON_THREAD")) return f(argc, argv);
     int rc = 0; std::thread t([&] { rc = f(argc, argv); }); t.join(); return rc; } }
 #define VH_MAIN_GLOBALS namespace vh { Out out; } \
